@@ -84,6 +84,13 @@ def _wins(rng, shapes, fn=("fixed",), kargs=None, mixes=(1, 1, 1, 2, 0.5, 3)):
         if ka is not None:
             w["kargs"] = {k: (v(rng) if callable(v) else v) for k, v in ka.items()}
         wins.append(w)
+    if ka is not None and len(wins) > 1 and rng.random() < 0.4:
+        # per-window dictionaries with *different* key sets (an omitted key means the default): a defaults object
+        # shared between the windows would let one window's setting leak into the next
+        for w in wins:
+            for k in ("offset", "normalize"):
+                if k in w["kargs"] and rng.random() < 0.5:
+                    del w["kargs"][k]
     return wins
 
 
@@ -155,6 +162,10 @@ def _fam(rng, f, tier):
         if k == "flat":
             for w in c["win"]:
                 del w["kargs"]["power"]             # timed_flat_kernel takes no power
+        if rng.random() < 0.5:
+            # the instance is fitted first on a corpus with a ~40x larger time scale (state such as the default
+            # delta must not survive into the next fit)
+            c["refit_first"] = [[[tok, t * 40.0] for tok, t in doc] for doc in _timed(rng, _corpus(rng, 8))]
     elif f == 4:    # multiset
         k = rng.choice(["flat", "flat", "geometric"])
         c = dict(base, kind="multi", kernel=k, X=_multi(rng, _corpus(rng, 16)),
@@ -217,6 +228,10 @@ def corpus():
           dict(base, kind="timed", kernel="flat", X=tX, shifts=[0, 1.6e9], nw=True,
                win=[{"radius": 2, "orient": "directional", "fn": "fixed", "mix": 1, "kargs": {"delta": 1.0, "offset": 0, "normalize": False}}]),
           dict(base, kind="timed", kernel="geometric", X=tX, shifts=[0, 1.6e9],
+               win=[{"radius": 2, "orient": "directional", "fn": "fixed", "mix": 1, "kargs": {"offset": 0, "normalize": False, "power": 0.9}}]),
+          # the same default-delta model, but the instance was fitted before on a corpus with a 50x larger time scale
+          dict(base, kind="timed", kernel="geometric", X=tX, shifts=[0],
+               refit_first=[[["a", 0.0], ["c", 50.0], ["b", 150.0], ["a", 200.0]], [["b", 0.0], ["a", 100.0]]],
                win=[{"radius": 2, "orient": "directional", "fn": "fixed", "mix": 1, "kargs": {"offset": 0, "normalize": False, "power": 0.9}}])]
     mX = [[["a", "b"], ["c"], ["a", "a"]], [["b"], [], ["c", "a"]]]
     f4 = [dict(base, kind="multi", kernel="flat", X=mX, win=[{"radius": 1, "orient": "after", "fn": "fixed", "mix": 1}]),
@@ -443,6 +458,20 @@ def oracle(case, outs):
     elif "tr_cells" in o:
         fails += cc.compare_with_reference(case, o, o["tr_cells"], ref, "transform(X)", f"cooc.{case['kind']}.transform")
     fails += _transpose_check(case, o)
+    # timed: the default time scale is the mean gap between consecutive kept events of the corpus being fitted -
+    # a function of that corpus only (not of what the instance was fitted on before)
+    if case["kind"] == "timed" and o.get("delta_mean") is not None:
+        kept = {t for t, _ in o["tokens"]}
+        masked = case.get("mask") is not None
+        tot, cnt = 0.0, 0
+        for doc in case["X"]:
+            ts = [float(t) for tok, t in doc if masked or str(tok) in kept]
+            tot += sum(b - a for a, b in zip(ts, ts[1:]))
+            cnt += len(ts) - 1
+        exp = tot / (cnt if cnt != 0 else 1)
+        if abs(exp - o["delta_mean"]) > 1e-9 * max(1.0, abs(exp)):
+            fails.append(_F("cooc.timed.delta-mean" + (".refit" if case.get("refit_first") else ""),
+                            f"delta_mean_ = {o['delta_mean']}, mean gap of the fitted corpus = {exp}"))
     # timed: the weights depend only on time differences, whatever the absolute magnitude
     for sh in o.get("shifted", []):
         if sh.get("exc"):
